@@ -286,7 +286,7 @@ fn slot_owners(p: &Parsed) -> BTreeMap<u64, SlotOwner> {
                 o.path.clone()
             } else {
                 let mut pth = o.path.clone();
-                pth.push(e.name_units(&|_| '\u{FFFD}'));
+                pth.push(e.name_units(&refdec::oem_dec));
                 pth
             };
             for so in &e.slot_offs {
